@@ -11,8 +11,11 @@ from pedal.sandbox import commands as S
 from pedal.sandbox import timeout as T
 
 
+OLD_THREADS = set()   # abandoned threads of EARLIER cases (a program that swallows BaseException never dies)
+
+
 def student_threads():
-    return [t for t in threading.enumerate() if isinstance(t, T.InterruptableThread)]
+    return [t for t in threading.enumerate() if isinstance(t, T.InterruptableThread) and t not in OLD_THREADS]
 
 
 def wait_dead(threads, limit=2.5):
@@ -56,6 +59,7 @@ def run_case(case):
         elif point == 'timeout.handler':
             reached['handler'].set()
     T._VERIF_SYNC = sync
+    OLD_THREADS.update(t for t in threading.enumerate() if isinstance(t, T.InterruptableThread))
     real_stdout = sys.stdout
     out = {'schedule': sched}
     t0 = time.time()
